@@ -9,7 +9,10 @@ Local Open Scope N_scope.
      one ConsoleAppender::append in a process with that environment;
      each variable () unset | ( str ); target 0 stdout / 1 stderr;
      chunks: ( chunk ... ), chunk = (0 text) | (1) {l} | (2) {m} | (3) {n} | (4 ( chunk ... )) {h(..)}
-     result: ( stdout_bytes stderr_bytes ) | "panic" *)
+             | (5 (min max right fill) ( chunk ... )) {h(..):SPEC}, min/max 0 = absent, k+1 = width k
+     result: ( stdout_bytes stderr_bytes ) | "panic"
+   case (2 chunks level msg): PatternEncoder::encode into AnsiWriter over a Vec (colour on)
+     result: the bytes | "panic" *)
 Definition VPanic : vl := VS [112; 97; 110; 105; 99].
 
 Definition dec_color (n : N) : option (option color) :=
@@ -53,7 +56,22 @@ Fixpoint dec_chunk (v : vl) : option chunk :=
                          | _, _ => None
                          end
              end) cs with
-    | Some l => Some (CHighlight l)
+    | Some l => Some (CHighlight no_params l)
+    | None => None
+    end
+  | VL [VN 5; VL [VN mn; VN mx; VN rt; VS fl]; VL cs] =>
+    match (fix go (l : list vl) : option (list chunk) :=
+             match l with
+             | [] => Some []
+             | x :: r => match dec_chunk x, go r with
+                         | Some c, Some cs' => Some (c :: cs')
+                         | _, _ => None
+                         end
+             end) cs with
+    | Some l =>
+      Some (CHighlight {| p_min := if mn =? 0 then None else Some (mn - 1);
+                          p_max := if mx =? 0 then None else Some (mx - 1);
+                          p_right := negb (rt =? 0); p_fill := fl |} l)
     | None => None
     end
   | _ => None
@@ -82,6 +100,15 @@ Definition c18_run (v : vl) : vl :=
       | Panic => VPanic
       end
     | _, _, _, _, _, _, _, _ => VBad
+    end
+  | VL [VN 2; VL chunks; VN lv; VS msg] =>
+    match opt_map dec_chunk chunks, dec_level lv with
+    | Some cs, Some lv' =>
+      match write_events Tty (enc_chunks cs lv' msg) with
+      | Ok bs => VS bs
+      | Panic => VPanic
+      end
+    | _, _ => VBad
     end
   | _ => VBad
   end.
